@@ -34,6 +34,7 @@ Record fchan := {
   fc_dur : Z;                             (* ChannelSamples.duration *)
   fc_slots : list (Z * Z * list nat);
   fc_w : list float;                      (* detuning-map weight per register index *)
+  fc_eom : list (option Z * float);       (* eom_blocks: (tf, detuning_off) *)
   fc_last : float * float                 (* cos, sin of phase[-1]; (1, 0) when empty *)
 }.
 
@@ -98,8 +99,21 @@ Definition f_U (cs : fcase) (xy : bool) (i j : nat) : cf :=
 Definition dedup (l : list nat) : list nat :=
   fold_left (fun acc x => if memb x acc then acc else acc ++ [x]) l [].
 
+(** ChannelSamples.extend_duration: amplitude padded with 0, phase with its
+    last value, detuning with [detuning_off] of the LAST EOM block when that
+    block is still open ([eom_blocks[-1].tf is None]) and with 0 otherwise *)
+Definition tail_det (c : fchan) : float :=
+  match last (map Some (fc_eom c)) None with
+  | Some (None, d) => d
+  | _ => zero
+  end.
+
 Definition f_used (cs : fcase) : list nat :=
-  dedup (map fc_basis (filter fc_nonempty (f_chans cs))).
+  (* used_bases is read on the emulator's samples, i.e. after the extension:
+     an open EOM block with a non-zero detuning_off makes the channel non-empty *)
+  dedup (map fc_basis
+             (filter (fun c => fc_nonempty c || negb (PrimFloat.eqb (tail_det c) zero))
+                     (f_chans cs))).
 Definition f_in_xy (cs : fcase) : bool :=
   existsb (fun c => fc_basis c =? 2) (f_chans cs).
 Definition only_digital (used : list nat) : bool :=
@@ -108,7 +122,7 @@ Definition only_digital (used : list nat) : bool :=
 Definition chan_at (t : Z) (c : fchan) (v : float * float * (float * float))
   : chan fops :=
   let '(amp, det, (co, si)) :=
-    if (t <? fc_dur c)%Z then v else (zero, zero, fc_last c) in
+    if (t <? fc_dur c)%Z then v else (zero, tail_det c, fc_last c) in
   Build_chan fops (fc_global c) (fc_dmm c) (fc_basis c)
     (Build_qty fops (cf_re amp) (cf_re det) (co, - si)%float)
     (fc_slots c)
